@@ -246,14 +246,19 @@ def handle (c : Json) : JE Json := do
   let h ← hist ISched.id
   let rp ← parseGraph theCfg ISched.id true g
   let plain := runI flatOps theCfg rp ISched.id false false (.inl input)
-  let lastRes (h : List (Out FlatMap St Payload)) : Json :=
-    match h.getLast? with
-    | some o => Json.mkObj (resJson g o.res)
-    | none => Json.null
   let isFail := match h.getLast? with | some o => (match o.res with | .failed _ => true | _ => false) | none => false
+  -- which failure a call reports depends on the order in which the tasks of the failing step complete
+  -- (and, for restored tasks, on Go's map order): every result of the *last call* reachable under the
+  -- probed completion orders is legitimate
+  let lastInput : FlatMap ⊕ Checkpoint FlatMap St Payload :=
+    match h.reverse with
+    | _ :: prev :: _ => (match prev.res with | .interrupted cp _ => .inr cp | _ => .inl input)
+    | _ => .inl input
   let alts ← if isFail then (do
-      let hs ← scheds.mapM hist
-      pure (((hs.map (fun h => (lastRes h).compress)).eraseDups).filterMap (fun t => (Json.parse t).toOption))) else pure []
+      let outs ← scheds.mapM (fun sc => do
+        let r ← parseGraph theCfg sc false g
+        pure (runI flatOps theCfg r sc false (!noID) lastInput))
+      pure (((outs.map (fun o => (Json.mkObj (resJson g o.res)).compress)).eraseDups).filterMap (fun t => (Json.parse t).toOption))) else pure []
   let plainAlts ← (match plain.res with
     | .failed _ => (do
       let ps ← scheds.mapM (fun sc => do
